@@ -399,6 +399,32 @@ def pipelinePre (spec : List Opt) (ov : List (Str × Val)) (ini : List (Str × C
   | .error e => .error e
   | .ok (p, pos) => .ok (applyOptVals ov p, updateDefaults dodo (applyOptVals ov p), pos)
 
+/-! ## command-line variables (`DoitMain.process_args`) -/
+
+/-- `(arg[0] != '-') and ('=' in arg)`: a word that `process_args` takes for a command-line variable `name=value` -/
+def isVarWord : Str → Bool
+  | [] => false
+  | c :: rest => c != '-' && (c :: rest).contains '='
+
+/-- `DoitMain.process_args` on the words after the loader options (command name included): every `name=value` word is
+    removed and remembered for `doit.get_var` — wherever it stands, also right after an option that takes a value
+    (`--val a=b` loses its value) and after `--`.  An empty word stays an ordinary word (`arg[:1]`, since
+    `fix: an empty word on the command line is reported as an error instead of a traceback`); `pinned := true` keeps
+    the earlier `arg[0]` on `''`: IndexError. -/
+def stripVarsP (pinned : Bool) : List Str → Except Err (List Str)
+  | [] => .ok []
+  | a :: rest =>
+    match stripVarsP pinned rest with
+    | .error e => .error e
+    | .ok out =>
+      if a = [] then (if pinned then .error .crash else .ok (a :: out))
+      else if isVarWord a then .ok out else .ok (a :: out)
+
+abbrev stripVars := stripVarsP false
+
+/-- the guard under which the words reach the parsers unchanged: no `name=value` word -/
+def NoVarWords (argv : List Str) : Bool := argv.all fun a => !isVarWord a
+
 /-- what `DoitMain.run` makes of the resolution: the command's return, `ERROR: …` with exit code 3, or an uncaught
     exception (traceback, exit status 1) -/
 inductive Outcome
